@@ -56,6 +56,7 @@ type scriptedOut struct {
 	kind  int
 	batch *pipeline.Batcher
 	stop  context.CancelFunc
+	k8s   bool
 }
 
 func (o *scriptedOut) rec(s string) {
@@ -72,6 +73,18 @@ func evInt(e *pipeline.Event, f string) int {
 	return n.AsInt()
 }
 
+// k8sNote records the k8s_pod meta field of a delivered event ("K <value>"; the parent only counts the values)
+func (o *scriptedOut) k8sNote(e *pipeline.Event) {
+	if !o.k8s {
+		return
+	}
+	v := "<absent>"
+	if n := e.Root.Dig("k8s_pod"); n != nil {
+		v = n.AsString()
+	}
+	o.rec("K " + v + "\n")
+}
+
 func (o *scriptedOut) Start(_ pipeline.AnyConfig, p *pipeline.OutputPluginParams) {
 	o.ctl = p.Controller
 	if o.kind == 1 {
@@ -82,6 +95,7 @@ func (o *scriptedOut) Start(_ pipeline.AnyConfig, p *pipeline.OutputPluginParams
 			OutFn: func(_ *pipeline.WorkerData, b *pipeline.Batch) {
 				d := 0
 				b.ForEach(func(e *pipeline.Event) {
+					o.k8sNote(e)
 					o.rec(fmt.Sprintf("D %d %d\n", evInt(e, "id"), e.Offset))
 					if x := evInt(e, "d"); x > d {
 						d = x
@@ -103,6 +117,7 @@ func (o *scriptedOut) Out(e *pipeline.Event) {
 		return
 	}
 	id := evInt(e, "id")
+	o.k8sNote(e)
 	o.rec(fmt.Sprintf("D %d %d\n", id, e.Offset))
 	if d := evInt(e, "d"); d > 0 {
 		time.Sleep(time.Duration(d) * time.Millisecond)
@@ -187,7 +202,7 @@ func helperMain() {
 			MatchMode:  pipeline.MatchModeAnd,
 		})
 	}
-	out := &scriptedOut{f: outf, kind: hc.outKind}
+	out := &scriptedOut{f: outf, kind: hc.outKind, k8s: hc.k8sMeta == 1}
 	p.SetOutput(&pipeline.OutputPluginInfo{
 		PluginStaticInfo:  &pipeline.PluginStaticInfo{Type: "verifout"},
 		PluginRuntimeInfo: &pipeline.PluginRuntimeInfo{Plugin: out},
